@@ -37,7 +37,10 @@ class FrameRead:
             try:
                 self.cls = type(s).__name__ if not hasattr(s, '__class__') else s.__class__.__name__
             except BaseException:  # noqa
-                self.cls = type(s).__name__
+                try:
+                    self.cls = type(s).__name__
+                except BaseException:  # noqa - a type that does not tell its name: whatever is reported is accepted
+                    self.cls = ANY
 
 
 def read_stack(frame):
@@ -49,13 +52,24 @@ def read_stack(frame):
 
 
 def safe_str(o):
+    """str(o), or None when the object cannot be rendered as usable text (str() raises, or answers with something whose
+    length cannot even be taken): then any placeholder is acceptable."""
     try:
         s = str(o)
         if not isinstance(s, str):
             return None
-        return s
+        len(s)
+        return s if type(s) is str else str.__str__(s)
     except BaseException:  # noqa
         return None
+
+
+def type_name(o):
+    """type(o).__name__, or 'unknown' when the type does not tell its name."""
+    try:
+        return type(o).__name__
+    except BaseException:  # noqa
+        return 'unknown'
 
 
 def safe_len(o):
@@ -128,13 +142,13 @@ ITER_NAMES = ('iterator', 'generator', 'coroutine')
 
 
 def is_iter_like(o):
-    n = type(o).__name__
+    n = type_name(o)
     return any(x in n for x in ITER_NAMES) or (hasattr(type(o), '__next__'))
 
 
 def value_problem(o, var, max_str):
     """None if the table entry `var` truthfully describes object o, else text."""
-    tn = type(o).__name__
+    tn = type_name(o)
     if var.type != tn:
         return 'type %r reported for a %s' % (var.type, tn)
     val = var.value
@@ -194,12 +208,12 @@ def check_table(snap_lookup, roots, max_str, probs, strict_children=None, max_co
             if reached[v] is not obj:
                 probs.add('identity:id-shared-by-different-objects',
                           'id %s used for %s and for a different %s at %s' % (
-                              v, type(reached[v]).__name__, type(obj).__name__, path))
+                              v, type_name(reached[v]), type_name(obj), path))
             continue
         reached[v] = obj
         if var.hash != str(id(obj)):
             probs.add('fidelity:wrong-object', '%s: entry %s has identity %s, the object there has %s (%s)' % (
-                path, v, var.hash, id(obj), type(obj).__name__))
+                path, v, var.hash, id(obj), type_name(obj)))
             continue
         p = value_problem(obj, var, max_str)
         if p:
@@ -222,7 +236,7 @@ def check_table(snap_lookup, roots, max_str, probs, strict_children=None, max_co
                     cands = [i for i, (_, c) in enumerate(kids) if i not in used and str(id(c)) == centry.hash]
             if not cands:
                 probs.add('fidelity:child-not-real', '%s: child named %r is not a real child of the %s' % (
-                    path, cname, type(obj).__name__))
+                    path, cname, type_name(obj)))
                 continue
             # prefer the candidate whose identity matches
             centry = snap_lookup.get(getattr(ch, 'vid', None))
@@ -240,7 +254,7 @@ def check_table(snap_lookup, roots, max_str, probs, strict_children=None, max_co
                 want = min(want, max_coll if max_coll is not None else default_limits()['max_coll'])
             if len(used) < want and not _no_child_kind(obj):
                 probs.add('fidelity:children-missing', '%s: %d of %d children of the %s reported' % (
-                    path, len(used), want, type(obj).__name__))
+                    path, len(used), want, type_name(obj)))
     return reached
 
 
@@ -262,7 +276,7 @@ def check_frames(snapshot, stack, probs, app_rule=None):
             probs.add('fidelity:frame', 'frame %d is %s:%s:%s, real %s:%s:%s' % (
                 i, os.path.basename(str(fr.file_name)), fr.method_name, fr.line_number,
                 os.path.basename(real.file), real.func, real.line))
-        if fr.class_name != real.cls:
+        if fr.class_name != real.cls and real.cls is not ANY:
             probs.add('fidelity:frame-class', 'frame %d class %r, real class of self %r' % (i, fr.class_name, real.cls))
         if app_rule is not None:
             app, short = app_rule(real.file)
